@@ -24,6 +24,10 @@ var Corpus = [][]string{
 	// position) the next listing through it shows the server's list, nothing of the old one
 	{"c create p1 127.0.0.1:$A u:1", `c add p1 t1 latency upstream - {"latency":100,"jitter":5}`, "h fetch h1 p1", "ht h1", "c rm p1 t1",
 		`c add p1 t2 timeout upstream - {"timeout":500}`, "ht h1", `c add p1 t3 limit_data downstream - {"bytes":100}`, "c rm p1 t2", "ht h1"},
+	// names that need escaping in a URL path (a space; a plus beside it): every by-name operation
+	// addresses the proxy / toxic of exactly that name
+	{"c create p$S4 127.0.0.1:$A u:1", "c create p+4 127.0.0.1:$B u:2", "c get p$S4", "c get p+4", `c add p$S4 t$S1 latency upstream - {"latency":5}`, "c toxics p$S4", "c toxics p+4",
+		`c upd p$S4 t$S1 - {"latency":7}`, "c rm p$S4 t$S1", "h fetch h1 p$S4", "h disable h1", "c get p+4", "c delete p$S4", "c proxies"},
 	// Client.Populate: entries as the caller holds them (enabled false included), twice, then a differing one
 	{"c populate p1 127.0.0.1:$A u:1 1 p2 127.0.0.1:$B u:2 0", "c populate p1 127.0.0.1:$A u:1 1 p2 127.0.0.1:$B u:2 0", "c proxies",
 		"c populate p1 127.0.0.1:$A u:2 0", "c get p1", "c populate p3 noport u:1 1", "c proxies"},
@@ -49,7 +53,7 @@ func attrs(r *rng.R, ty string) string {
 
 func Episode(r *rng.R) []string {
 	var ops []string
-	pn := func() string { return pick(r, "p1", "p1", "p2", "p3") }
+	pn := func() string { return pick(r, "p1", "p1", "p2", "p3", "p$S4", "p+4") }
 	tn := func() string { return pick(r, "t1", "t1", "t2", "-") }
 	ty := func() string { return pick(r, "latency", "latency", "timeout", "limit_data", "slicer", "bogus", "-") }
 	tox := func() string { return pick(r, "-", "-", "0", "1", "0.5", "0.3") }
